@@ -242,11 +242,18 @@ func checkBind(v any, ds destSpec, pre bool) []string {
 		bad("Result.Bind panicked: %v", pv)
 		return pr
 	}
-	// --- store.Bind (the key has a history: another value was stored and bound there before)
+	// --- store.Bind (the store has a history: another value was stored and bound there before,
+	// successfully; one bind failed while decoding, one while encoding)
 	dS := ds.mk(pre)
 	st := flyt.NewSharedStore()
 	st.Set("k", map[string]any{"id": 999, "name": "previous"})
 	try(func() { var scratch bTagged; st.Bind("k", &scratch); var scratch2 any; st.Bind("k", &scratch2) })
+	st.Set("bad", map[string]any{"id": "not-a-number"})
+	try(func() { var scratch bTagged; st.Bind("bad", &scratch) })
+	st.Set("worse", make(chan int))
+	try(func() { var scratch bTagged; st.Bind("worse", &scratch) })
+	st.Delete("bad")
+	st.Delete("worse")
 	st.Merge(map[string]any{"k": v})
 	var errS error
 	if p, pv := try(func() { errS = st.Bind("k", dS) }); p {
